@@ -240,7 +240,7 @@ Section Commit.
        c_x := map_imap (λ a o,
                 if dirty a then
                   match fin_obj r o with
-                  | None => None
+                  | None => Some fresh_ext     (* delete(s.stateObjects, addr): the extension goes with the object *)
                   | Some _ =>
                       if rAms r && o_sd o
                       then Some (origin_ext cs a (o_origin o))          (* newObject(origin) *)
